@@ -1,17 +1,29 @@
 ---------------------------- MODULE Trace_NoPanic ----------------------------
 (* impl -> spec for C03: every logged outcome must be in the alphabet of explainable outcomes. *)
+(* `syn` remembers the synthetic TZif files of the session (`Tzdb.define`) and, once the parser's reading has been logged *)
+(* (`Tzdb.table`), the kind of their footer: the class label of a query on such a zone is computed from it.              *)
 EXTENDS TemporalBase, TraceBase
-VARIABLES l
-tvars == <<l>>
+VARIABLES l, syn
+tvars == <<l, syn>>
 E == Rec[l]
-ProviderBacked == {"RealZone.probe", "TzifBytes.probe", "Parse.ZonedDateTime", "Parse.TimeZone", "Tzdb.table", "Tzdb.offset", "Tzdb.local"}
+ProviderBacked == {"RealZone.probe", "TzifBytes.probe", "Parse.ZonedDateTime", "Parse.TimeZone", "Tzdb.define", "Tzdb.table", "Tzdb.offset", "Tzdb.local"}
 Alphabet(e) == IF e.op \in ProviderBacked THEN OkKinds \cup {"generic"} ELSE OkKinds
 Good(e) == e.out.kind \in Alphabet(e)
-ClsOf(e) == IF e.op = "RealZone.probe" THEN e.args.call \o "/" \o e.args.lbl ELSE IF e.op = "TzifBytes.probe" THEN "corrupted-file/" \o e.out.phase ELSE "outcome"
-TInit == l = 1
+Put(f, k, v) == [x \in DOMAIN f \cup {k} |-> IF x = k THEN v ELSE f[x]]
+FooterKind(f) == IF f.kind = "none" THEN "no-footer" ELSE IF f.kind = "fixed" THEN "fixed-footer"
+                 ELSE IF f.start.k = f.end.k THEN "rule-" \o f.start.k ELSE "rule-mixed"
+ClsOf(e) == IF e.op = "RealZone.probe" THEN e.args.call \o "/" \o e.args.lbl
+            ELSE IF e.op = "TzifBytes.probe" THEN "corrupted-file/" \o e.out.phase
+            ELSE IF e.op \in {"Tzdb.define", "Tzdb.table", "Tzdb.offset", "Tzdb.local"} /\ e.args.zone \in DOMAIN syn THEN "synthetic-tzif/" \o syn[e.args.zone]
+            ELSE "outcome"
+TInit == l = 1 /\ syn = [z \in {} |-> ""]
 TNext == /\ l <= NEv /\ l' = l + 1
          /\ \/ E.op = "reset"
             \/ E.op # "reset" /\ Good(E)
             \/ E.op # "reset" /\ ~Good(E) /\ Report(l, E.op, ClsOf(E), "an outcome in {ok, type, range, syntax}", E.out)
+         /\ syn' = IF E.op = "reset" THEN [z \in {} |-> ""]
+                   ELSE IF E.op = "Tzdb.define" THEN Put(syn, E.args.zone, "undetermined")
+                   ELSE IF E.op = "Tzdb.table" /\ E.args.zone \in DOMAIN syn /\ E.out.kind = "ok" THEN Put(syn, E.args.zone, FooterKind(E.out.val.footer))
+                   ELSE syn
 TSpec == TInit /\ [][TNext]_tvars
 =============================================================================
